@@ -47,6 +47,28 @@ Theorem C02_sync_return_implies_committed : forall (ns : list nat) (evs : list (
 Proof. intros ns evs x. exact (proj2 (C02_checker_sound gen_take_tail take_tail_well_ordered ns evs) x). Qed.
 Print Assumptions C02_sync_return_implies_committed.
 
+From TS Require Import model.Barrier proofs.BarrierProofs proofs.BarrierInst.
+
+(* ASYNCHRONOUS take (background completion through the store barrier, model/Barrier.v; the barrier protocol is
+   C13's subject and its skeleton is re-extracted from the source on every run): for every world size, every fault
+   plan, every interleaving of the ranks' background threads and every history of snapshots with distinct barrier
+   prefixes - the metadata of a snapshot is written only after every rank's payload I/O completed successfully ... *)
+Theorem C02_async_metadata_last : forall st0 h sch i x,
+  fresh st0 h -> distinct_prefixes h ->
+  nth_error (g_insts (grun (ginit st0 h) sch)) i = Some x ->
+  i_meta x = true ->
+  forall r, (r < i_W x)%nat -> i_iodone x r = true /\ iofails x r = false.
+Proof. exact commit_after_all_arrive. Qed.
+Print Assumptions C02_async_metadata_last.
+
+(* ... and a rank's wait() returns normally only after the metadata has been written. *)
+Theorem C02_async_return_implies_committed : forall st0 h sch i x,
+  fresh st0 h -> distinct_prefixes h ->
+  nth_error (g_insts (grun (ginit st0 h) sch)) i = Some x ->
+  forall r, (r < i_W x)%nat -> i_pcs x r = PDone -> i_meta x = true.
+Proof. exact depart_after_commit. Qed.
+Print Assumptions C02_async_return_implies_committed.
+
 (* Non-vacuity: 2 ranks with 2 and 1 payload writes; a full run reaches "both returned, metadata complete";
    cutting the same run after 9 events gives "no metadata yet". *)
 Example C02_example_run :
